@@ -1,7 +1,8 @@
 # Builds nixsim from /repo's current working tree (sources globbed at make time).
 REPO ?= /repo
 SAN  ?= asan
-B    := build/$(SAN)
+BUILD ?= build
+B    := $(BUILD)/$(SAN)
 CXX  := g++
 ifeq ($(SAN),asan)
 SANFLAGS := -fsanitize=address,undefined -fno-sanitize=vptr -fno-omit-frame-pointer -fno-sanitize-recover=undefined
